@@ -131,6 +131,9 @@ func (ctx *EntryContext) Reset() {
 		ctx.RuleCheckResult = NewTokenResultPass()
 	} else {
 		ctx.RuleCheckResult.ResetToPass()
+		// the node lists of the outlier slot belong to the request that is leaving
+		ctx.RuleCheckResult.SetFilterNodes(nil)
+		ctx.RuleCheckResult.SetHalfOpenNodes(nil)
 	}
 	if len(ctx.Data) != 0 {
 		ctx.Data = make(map[interface{}]interface{})
